@@ -197,6 +197,27 @@ def check_helper(ctx, lib, rule, e):
             ok, msg = False, "nested objects are not descended into"
         if ok and not as_term:
             ok, msg = False, "children are not classified with as_term()"
+        # every term child is passed on unconditionally, every nested object descended into
+        if ok:
+            ms = [m for m in sym.subterms(t) if m[0] == "match" and m[1][0] == "call" and suffix_match(m[1][1], "as_term")]
+            ms = list(dict.fromkeys(ms))
+            if not ms:
+                ok, msg = False, "no `match child.as_term()` classification found"
+            for m in ms:
+                for p_, g_, b_ in m[2]:
+                    cs = tables.pat_ctors(p_)
+                    if any(suffix_match(c, "Some") for c in cs):
+                        payload = ("proj", m[1], ANY, 0)
+                        passes = [c for c in sym.subterms(b_) if c[0] == "call" and any(c[1].split("::")[-1] == x.split("::")[-1] for x in e["helper_term_targets"]) and any(unify(payload, a) is not None for x in c[2] for a in sym.subterms(x))]
+                        if g_ is not None:
+                            ok, msg = False, "a term child is handled only under the guard `%s`" % show(g_, maxdepth=3)[:80]
+                        elif not passes:
+                            ok, msg = False, "an arm for term children does not pass the term on (%s)" % show(b_, maxdepth=3)[:80]
+                    elif any(suffix_match(c, "None") for c in cs):
+                        if g_ is not None or not [c for c in sym.calls(b_, fn["npath"].split("::")[-1])]:
+                            ok, msg = False, "the arm for nested objects does not descend into them unconditionally"
+                    else:
+                        ok, msg = False, "catch-all arm `%s` in the child classification can skip children" % sym.showpat(p_)
     ctx.expect(ok, rule, key + "|all-children", site, "compound helper must visit every child (terms and nested objects): %s" % msg)
 
 
